@@ -19,15 +19,15 @@ FK = {'mean': 'FMean', 'min': 'FMin', 'max': 'FMax', 'sum': 'FSum', 'half': 'FHa
 
 RULE = ('IOAPI file with 1-4 time steps (hourly or 2-hourly, inside one day), 1-4 layers, 1-3 rows/columns or a PERIM axis, 1-3 listed '
         'variables, built by ioapi_base.from_arrays (gridded or boundary) or written to netCDF and re-opened with the ioapi reader; then 1-4 '
-        'operations out of copy, subsetVariables (incl. empty and unknown selections), renameVariable, sliceDimensions (int or slice on '
-        'TSTEP/LAY/ROW/COL), applyAlongDimensions (mean/min/max/sum or x[::2] on TSTEP/LAY/ROW/COL), eval, mask, stack on TSTEP, interpSigma; '
+        'operations out of copy, subsetVariables (incl. empty and unknown selections), renameVariable, sliceDimensions (one or two of '
+        'TSTEP/LAY/ROW/COL per call; int incl. negative, slice incl. negative steps, unsorted index list), applyAlongDimensions (mean/min/max/sum or x[::2] on TSTEP/LAY/ROW/COL), eval, mask, stack on TSTEP, interpSigma; '
         'the ten metadata encodings are read after every step. Non-trivial = some successful step changed them.')
 TRUSTED = ['the observation (NVARS, VAR-LIST chunks, VAR/TSTEP/LAY/ROW/COL lengths, TFLAG.shape[1] and TFLAG[:,0,:], NLAYS NROWS NCOLS, len(VGLVLS), SDATE STIME TSTEP) '
            'is read from the real object by harness/props/c10.py',
            'TFLAG re-creation is modelled inside one day only (no calendar arithmetic; C11/C12)',
            'audit_meta structural keys are used as a secondary oracle only']
 ASSUMPTIONS = ['only variables with the standard dimensions are modelled; files built from GRIDDESC text are not generated',
-               'sliceDimensions is driven with one dimension per call, non-negative start, positive step; index arrays (POINTS path) are not modelled here (C01 models them)',
+               'sliceDimensions with two index lists in one call (POINTS path) is not modelled here (C01 drives it); after a selection that leaves a non-positive TSTEP attribute the sequence stops (TFLAG re-creation is modelled for positive steps only)',
                'eval/stack directly on a netCDF4-backed ioapi object raise TypeError (as for C01) and are not generated as first step of a disk-read file']
 TECHNIQUE = 'Coq proof (invariant by induction over operation sequences) + vm_compute refutation witnesses + differential correspondence on random operation sequences'
 LEVEL_TEXT = ('Theorems (Props/C10.v, closed under the global context) over a structure-level Gallina model of the IOAPI wrappers, describing the '
@@ -111,6 +111,30 @@ def observe(f):
                 sdate=ia('SDATE'), stime=ia('STIME'), tstep=ia('TSTEP'), audit=fails, cls=type(f).__name__)
 
 
+def mksel(sel):
+    if sel[0] == 'int':
+        return int(sel[1])
+    if sel[0] == 'slice':
+        return slice(sel[1], sel[2], sel[3])
+    return list(sel[1])
+
+
+def resolve(sel, n):
+    """the selected positions, in selection order; None if the selector is out of range"""
+    try:
+        if sel[0] == 'int':
+            return [list(range(n))[sel[1]]]
+        if sel[0] == 'slice':
+            return list(range(n))[slice(sel[1], sel[2], sel[3])]
+        return [list(range(n))[i] for i in sel[1]]
+    except IndexError:
+        return None
+
+
+def dimlen(st, d):
+    return {'TSTEP': st['nt'], 'LAY': st['nl'], 'ROW': st['nr'], 'COL': st['nc']}[d]
+
+
 def derive(f, spec):
     if spec[0] == 'self':
         return f
@@ -127,9 +151,7 @@ def prepare(f, op):
     if k == 'rename':
         return (lambda: f.renameVariable(op['old'], op['new'])), None
     if k == 'slice':
-        a, kk, st = op['a'], op['k'], op['st']
-        sel = int(a) if (kk == 1 and op.get('asint')) else slice(a, a + (kk - 1) * st + 1, st)
-        return (lambda: f.sliceDimensions(**{op['d']: sel})), None
+        return (lambda: f.sliceDimensions(**{d: mksel(sel) for d, sel in op['sels']})), None
     if k == 'apply':
         fn = (lambda x: x[::2]) if op['fn'] == 'half' else op['fn']
         return (lambda: f.applyAlongDimensions(**{op['d']: fn})), None
@@ -200,7 +222,8 @@ def crows(rows):
 def modelable(st):
     if st['odd'] or any(v not in NID for v in st['varlist']):
         return False
-    if min(st['vardim'], st['nvars'], st['a_nl'], st['a_nr'], st['a_nc'], st['nvgl'], st['sdate'], st['stime'], st['tstep']) < 0:
+    # -1 = attribute missing; the TSTEP attribute itself may be negative (reversed selections) but never -1 (whole hours)
+    if min(st['vardim'], st['nvars'], st['a_nl'], st['a_nr'], st['a_nc'], st['nvgl'], st['sdate'], st['stime']) < 0 or st['tstep'] == -1:
         return False
     if st['tflag'] is not None and (st['tflag'][0] < 0 or st['tflag'][2] != ['TSTEP', 'VAR', 'DATE-TIME']):
         return False
@@ -215,7 +238,7 @@ def cio(st):
         cz(st['sdate']), cz(st['stime']), cz(st['tstep']))
 
 
-def cop(op, oo):
+def cop(op, oo, st):
     k = op['op']
     if k == 'copy':
         return 'ICopy'
@@ -224,7 +247,14 @@ def cop(op, oo):
     if k == 'rename':
         return '(IRename %d %d)' % (nid(op['old']), nid(op['new']))
     if k == 'slice':
-        return '(ISlice %s %d %d %d)' % (DK[op['d']], op['a'], op['k'], op['st'])
+        parts = []
+        for d, sel in op['sels']:
+            n = dimlen(st, d) or 0
+            idx = resolve(sel, n)
+            if idx is None:
+                idx = [n]                      # out of range: the model raises as well
+            parts.append('(%s, %s, %s)' % (DK[d], C.cbool(sel[0] == 'list'), cnames(idx)))
+        return '(ISlice [%s])' % '; '.join(parts)
     if k == 'apply':
         return '(IApply %s %s)' % (DK[op['d']], FK[op['fn']])
     if k == 'eval':
@@ -246,7 +276,7 @@ def coq_term(case, obs):
     n_ok = len(obs['states']) - 1
     real_raise = obs['raised'] is not None and not obs['raised'].startswith('operand:')
     ops = case['ops'][:n_ok + (1 if real_raise else 0)]
-    terms = [cop(op, obs['others'][i]) for i, op in enumerate(ops)]
+    terms = [cop(op, obs['others'][i], obs['states'][i]) for i, op in enumerate(ops)]
     outs = ['(Ok %s)' % cio(s) for s in obs['states'][1:]] + (['Raise'] if real_raise else [])
     return '(Case %s [%s] [%s])%%nat' % (cio(obs['states'][0]), '; '.join(terms), '; '.join(outs))
 
@@ -354,15 +384,31 @@ def gen_op(rng, st, first_disk, malformed):
         dl['ROW'] = st['nr']
         dl['COL'] = st['nc']
     if k == 'slice':
-        d = rng.choice(sorted(dl))
-        n = dl[d]
-        stp = rng.choice([1, 1, 2])
-        a = rng.randint(0, n - 1)
-        kk = rng.randint(1, (n - 1 - a) // stp + 1)
+        ds = rng.sample(sorted(dl), min(rng.choice([1, 1, 2, 2]), len(dl)))
+        if rng.random() < 0.35 and 'TSTEP' not in ds:
+            ds[0] = 'TSTEP'
+        haslist = False
+        sels = []
+        for d in ds:
+            n = dl[d]
+            kind = rng.choice(['int', 'slice', 'slice', 'list'])
+            if kind == 'list' and haslist:
+                kind = 'slice'                 # two index lists take the POINTS path (C01)
+            if kind == 'int':
+                sel = ['int', rng.randint(-n, n - 1)]
+            elif kind == 'slice':
+                sel = ['slice', rng.choice([None, None, rng.randint(-n, n)]), rng.choice([None, None, rng.randint(-n, n)]),
+                       rng.choice([None, 1, 2, -1, -1, -2])]
+                if not resolve(sel, n):
+                    sel = ['slice', None, None, rng.choice([-1, None])]
+            else:
+                haslist = True
+                sel = ['list', rng.sample(range(n), rng.randint(1, n))]      # unsorted, distinct positions
+            sels.append([d, sel])
         if malformed:
-            a = n
-            kk = 1
-        return dict(op='slice', d=d, a=a, k=kk, st=stp, asint=(kk == 1 and rng.random() < 0.5) or malformed)
+            d = ds[0]
+            sels[0] = [d, ['int', dl[d]]]
+        return dict(op='slice', sels=sels)
     if k == 'apply':
         return dict(op='apply', d=rng.choice(sorted(dl)), fn=rng.choice(['mean', 'min', 'max', 'sum', 'half', 'half']))
     if k == 'eval':
@@ -397,7 +443,7 @@ def gen(rng, n, tier):
                     st = observe(f)
                     for j in range(nops):
                         # TFLAG re-creation is modelled inside one day only: stop before a rebuild could roll over
-                        if st['stime'] + (2 * st['nt']) * st['tstep'] >= 240000 or st['tstep'] % 10000 or st['nt'] > 8:
+                        if st['stime'] + (2 * st['nt']) * st['tstep'] >= 240000 or st['tstep'] % 10000 or st['nt'] > 8 or st['tstep'] <= 0:
                             break
                         op = gen_op(rng, st, j == 0 and init['how'] == 'disk', malformed and j == nops - 1)
                         ops.append(op)
